@@ -31,6 +31,8 @@ def map_facts(I):
     F.upper = {"alphav": lambda c: ONE - T.sym("alpha_gap")}
     G.facts_inv(G.mk_gmm(I), F)
     G.facts_inv(G.mk_gmm(I, "0"), F, "0")
+    G.facts_inv(G.mk_gmm(I, "00"), F, "00")
+    F.pos_apps |= {"w00", "v00"}
     return F
 
 
@@ -54,18 +56,21 @@ def mstep_map(ctx):
 def mstep_map_inner():
     res = []
     for um, uv, uw in itertools.product((True, False), repeat=3):
-        for mode in ("reynolds", "alpha", "alphavec"):
+        for mode in ("reynolds", "alpha", "alphavec") + (("chained",) if (um and uv and uw) else ()):
             I = new_interp()
             flags = dict(update_means=um, update_variances=uv, update_weights=uw)
 
             def build(I=I, flags=flags, mode=mode):
-                ubm = G.mk_gmm(I, "0")
+                # "chained": the prior is itself an adapted model (it carries a UBM of its own, with other parameters): the blend
+                # is with the machine's OWN prior, not with the root of the chain
+                ubm = G.mk_gmm(I, "0", ubm=(G.mk_gmm(I, "00") if mode == "chained" else None), trainer=("map" if mode == "chained" else "ml"))
                 m = G.mk_gmm(I, trainer="map", ubm=ubm, update=(flags["update_means"], flags["update_variances"], flags["update_weights"]))
                 kw = dict(machine=m, statistics=G.mk_stats(I), mean_var_update_threshold=m.fields["mean_var_update_threshold"],
-                          reynolds_adaptation=(mode == "reynolds"), relevance_factor=T.sym("relevance"),
+                          reynolds_adaptation=(mode in ("reynolds", "chained")), relevance_factor=T.sym("relevance"),
                           alpha=(input_arr("alphav", (G.Cc,)) if mode == "alphavec" else T.sym("alpha")), **flags)
                 return [], kw
-            cl = K.check_function(I, "gmm.map_gmm_m_step", build, G.spec_map_m_step, map_facts(I), "C05.m", result_name="ret")
+            cl = K.check_function(I, "gmm.map_gmm_m_step", build, G.spec_map_m_step, map_facts(I), "C05.m", result_name="ret",
+                                  caller_owned=("alpha",))          # a per-Gaussian ratio array is the caller's (reused for the next client)
             tag = "[um=%d,uv=%d,uw=%d,%s]" % (um, uv, uw, mode)
             for c in cl:
                 c.detail = tag + " " + c.detail
